@@ -160,6 +160,14 @@ impl<P: Atomic> GenericGaugeVec<P> {
     }
 }
 
+#[cfg(prometheus_verif)]
+impl<P: Atomic> GenericGauge<P> {
+    /// Address under which the verification shim reports this gauge's value.
+    pub fn verif_addr(&self) -> usize {
+        &self.v.val as *const P as usize
+    }
+}
+
 #[cfg(test)]
 mod tests {
     use std::collections::HashMap;
